@@ -1,4 +1,4 @@
-// fmtcat catalog 4: ordered and unordered associative containers
+// fmtcat catalog 4: ordered associative containers
 #include "fmtcat.h"
 
 namespace fmtcat
@@ -10,6 +10,10 @@ std::vector<ShapeEntry> shapes_4()
     FMTCAT_SHAPE("set_int", V<std::set<int>>),
     FMTCAT_SHAPE_W("set_string", 4, V<std::set<Str>>),
     FMTCAT_SHAPE("set_double", V<std::set<double>>),
+    FMTCAT_SHAPE("set_enum", V<std::set<Level>>),
+    FMTCAT_SHAPE("set_char", V<std::set<char>>),
+    FMTCAT_SHAPE("map_int_double", V<std::map<int, double>>),
+    FMTCAT_SHAPE("multimap_string_string", V<std::multimap<Str, Str>>),
     FMTCAT_SHAPE("set_int_greater", V<std::set<int, std::greater<int>>>),
     FMTCAT_SHAPE("multiset_int", V<std::multiset<int>>),
     FMTCAT_SHAPE("multiset_string", V<std::multiset<Str>>),
@@ -21,16 +25,6 @@ std::vector<ShapeEntry> shapes_4()
     FMTCAT_SHAPE("map_enum_string", V<std::map<Level, Str>>),
     FMTCAT_SHAPE("multimap_int_string", V<std::multimap<int, Str>>),
     FMTCAT_SHAPE("multimap_string_int", V<std::multimap<Str, int>>),
-    FMTCAT_SHAPE("unordered_set_int", V<std::unordered_set<int>>),
-    FMTCAT_SHAPE_W("unordered_set_string", 4, V<std::unordered_set<Str>>),
-    FMTCAT_SHAPE("unordered_multiset_int", V<std::unordered_multiset<int>>),
-    FMTCAT_SHAPE("unordered_multiset_string", V<std::unordered_multiset<Str>>),
-    FMTCAT_SHAPE("unordered_map_int_int", V<std::unordered_map<int, int>>),
-    FMTCAT_SHAPE_W("unordered_map_string_int", 4, V<std::unordered_map<Str, int>>),
-    FMTCAT_SHAPE("unordered_map_int_string", V<std::unordered_map<int, Str>>),
-    FMTCAT_SHAPE("unordered_multimap_int_string", V<std::unordered_multimap<int, Str>>),
-    FMTCAT_SHAPE("unordered_multimap_string_string", V<std::unordered_multimap<Str, Str>>),
-    FMTCAT_SHAPE_W("mix_map_cstr_uset", 4, V<std::map<Str, int>>, CStr, V<std::unordered_set<Str>>, V<Str>),
   };
 }
 } // namespace fmtcat
